@@ -27,6 +27,8 @@ var (
 	SimState func(l, h *[consts.HashTrinarySize]uint, nonce uint64)
 	// SimDigest is called by Score with the Curl hash of the message with the given nonce, which it may observe or replace.
 	SimDigest func(digest trinary.Trits, nonce uint64)
+	// SimInput is called by a worker with the 64 trit buffers it is about to hash for the batch starting at nonce.
+	SimInput func(buf []trinary.Trits, nonce uint64)
 )
 
 func simYield(site string, who int) {
@@ -44,6 +46,12 @@ func simState(l, h *[consts.HashTrinarySize]uint, nonce uint64) {
 func simDigest(digest trinary.Trits, nonce uint64) {
 	if SimDigest != nil {
 		SimDigest(digest, nonce)
+	}
+}
+
+func simInput(buf []trinary.Trits, nonce uint64) {
+	if SimInput != nil {
+		SimInput(buf, nonce)
 	}
 }
 
